@@ -116,12 +116,46 @@ def _fget(o):
     return getattr(o, "fget", None) or o
 
 
+import inspect as _inspect
+import typing as _typing
+
+
+class Movie(_typing.TypedDict):
+    """a PEP 589 TypedDict class written by the user (not one MonkeyType generated)"""
+    title: str
+    year: int
+
+
+def checked(f):
+    """a signature-preserving decorator: functools.wraps AND an explicit __signature__"""
+    import functools
+
+    @functools.wraps(f)
+    def wrapper(*a, **k):
+        return f(*a, **k)
+
+    wrapper.__signature__ = _inspect.signature(f)
+    return wrapper
+
+
+@checked
+def sigwrapped(a, b=None):
+    return a
+
+
+@deco
+@checked
+def sigwrapped_twice(a):
+    return a
+
+
 def lookup(module, qualname, attr=None):
     """parameters named like the keys of an encoded type"""
     return module
 
 
 FUNCS = {
+    "sigwrapped": sigwrapped.__wrapped__, "sigwrapped_twice": sigwrapped_twice.__wrapped__.__wrapped__,
     "lookup": lookup,
     "plain": plain, "kwonly": kwonly, "posonly": posonly, "gen": gen, "gen_none": gen_none, "coro": coro,
     "wrapped": wrapped.__wrapped__, "wrapped_twice": wrapped_twice.__wrapped__.__wrapped__,
